@@ -83,6 +83,7 @@ jobs:
       max-parallel: 2
       matrix:
         os: [a, b]
+        pair: [[1, 2], [3, [4, 5]], {k: [6, 7]}]
         include:
           - os: c
         exclude:
@@ -124,6 +125,10 @@ jobs:
         with:
           entrypoint: /bin/sh
           args: -c ls
+      - uses: actions/github-script@v7
+        with:
+          script: console.log(1)
+          Result-Encoding: string
   call:
     needs: [build]
     uses: ./.github/workflows/callee.yml
